@@ -431,7 +431,16 @@ pub fn build(ty: &Ty, s: &Sx) -> Dyn {
             "bytes" => Dyn::Bytes(bytes::Bytes::from(bytes_of(s))),
             "uuid" => Dyn::Uuid(uuid::Uuid::from_bytes(bytes_of(s).try_into().expect("16 bytes"))),
             "bigint" => Dyn::BigInt(s.atom()[1..].parse().unwrap()),
-            "bigdec" => Dyn::BigDec(String::from_utf8(bytes_of(s)).unwrap().parse().expect("decimal")),
+            // (0 z<unscaled> z<scale>): BigDecimal::new; the text form b<hex> (parsed by the crate) is kept for
+            // the layout stream of C04
+            "bigdec" => match s {
+                Sx::Atom(_) => Dyn::BigDec(String::from_utf8(bytes_of(s)).unwrap().parse().expect("decimal")),
+                Sx::List(_) => {
+                    let l = items(s);
+                    let unscaled: BigInt = l[0].atom()[1..].parse().unwrap();
+                    Dyn::BigDec(bigdecimal::BigDecimal::new(unscaled, num(&l[1], 'z')))
+                }
+            },
             "weekday" => Dyn::Weekday(weekday_of(num(s, 'n'))),
             "month" => Dyn::Month(chrono::Month::try_from(num::<u8>(s, 'n')).expect("month")),
             "fixedoffset" => Dyn::FixedOffset(chrono::FixedOffset::east_opt(num(s, 'z')).expect("offset")),
@@ -564,7 +573,17 @@ pub fn print_val(v: &Dyn, canonical: bool) -> String {
         Dyn::Bytes(b) => format!("b{}", hex(b)),
         Dyn::Uuid(u) => format!("b{}", hex(u.as_bytes())),
         Dyn::BigInt(b) => format!("z{b}"),
-        Dyn::BigDec(b) => format!("b{}", hex(b.to_string().as_bytes())),
+        // decoded values (canonical = true) are observed through the representative the decimal text determines
+        // (BigDec.bd_norm: Rust's equality on BigDecimal is numeric; integers with up to 15 padded zeros are printed in
+        // full); the echo of an input value prints the pair as given
+        Dyn::BigDec(b) => {
+            let (i, sc) = b.as_bigint_and_exponent();
+            if canonical && (-15..0).contains(&sc) {
+                format!("(0 z{} z0)", i * BigInt::from(10u8).pow((-sc) as u32))
+            } else {
+                format!("(0 z{i} z{sc})")
+            }
+        }
         Dyn::Weekday(w) => format!("n{}", w.number_from_monday()),
         Dyn::Month(m) => format!("n{}", m.number_from_month()),
         Dyn::FixedOffset(o) => format!("z{}", o.local_minus_utc()),
